@@ -22,6 +22,7 @@ GA = "1/1/1"
 CONFIGS: list[tuple[Any, ...]] = [(10, 0, "percentU8"), (10, 30, "percentU8"), (0, 30, "percentU8"), (0, 0, "percentU8"), (10, 0, "binary"), (10, 30, "binary"),
                                   (10, 0, "percentU8", False), (10, 5, "percentU8")]
 EVENTS = ["set:A", "set:B", "set:A:skip", "set:B:skip", "read", "init:B", "in-write:A", "DISCONNECT", "CONNECT", "+1", "+5", "+10", "+30"]
+COARSE = ["set:A", "set:B", "+1", "+10"]
 HORIZON = 45.0
 T0 = 1000.0
 
@@ -245,6 +246,29 @@ def worker(k: int, n: int, depth: int) -> Part:
                 part.viol(s, d, [ci, list(seq)], rank=(len(seq), ci, seq))
             if part.evaluations <= 2:
                 part.sample([ci, [EVENTS[e] for e in seq]])
+    # long histories over a coarse alphabet: a fault that needs an idle cooldown end, a deferred value and two more sets in a row
+    # is out of reach of depth 4/5 over the full alphabet
+    coarse = [EVENTS.index(e) for e in COARSE]
+    cdepth = depth + (4 if depth <= 4 else 4)
+    j = 0
+    for ci, cfg in enumerate(CONFIGS):
+        if not cfg[0]:
+            continue   # (cooldown configurations)
+        for nn in range(depth + 1, cdepth + 1):
+            for seq in itertools.product(coarse, repeat=nn):
+                if EVENTS[seq[0]].startswith("+"):
+                    continue
+                j += 1
+                if j % n != k:
+                    continue
+                viols = run_case(ci, seq)
+                part.evaluations += 1
+                part.traces += 1
+                part.transitions += len(seq)
+                part.nontrivial += 1
+                part.outcomes[f"cfg{ci}:" + ("violating" if viols else "ok")] += 1
+                for s, d in viols:
+                    part.viol(s, d, [ci, list(seq)], rank=(len(seq), ci, seq))
     for k_ in STATES:
         part.state(k_)
     STATES.clear()
@@ -258,7 +282,8 @@ def run(ctx: Ctx) -> None:
         f"(set / set with skip_unchanged of two values, GroupValueRead, initialize_value, a foreign write to the address, connection changes, time), then {HORIZON} s of timers. The interface log of value "
         "telegrams and responses is checked against the statement: update-caused writes >= cooldown apart (writes exactly one period after the previous telegram/(re)connection are attributed to periodic sending); "
         "every effective set that is not superseded within the cooldown has its value on the bus by set time + cooldown (sent in that window, or it is the value last on the bus), while connected; every read is "
-        "answered at once with the most recent value; set(skip_unchanged) of a differing value counts as an effective set."
+        "answered at once with the most recent value; set(skip_unchanged) of a differing value counts as an effective set. "
+        f"Plus, for the configurations with a cooldown, ALL sequences of length {depth + 1}..{depth + 4} over the coarse alphabet {COARSE}."
     )
     ctx.bounds = {"depth": depth, "configs": len(CONFIGS), "sequences": len(sequences(depth))}
     ctx.pmap(worker, [(k, 128, depth) for k in range(128)])
